@@ -11,7 +11,9 @@ Record ttick := { tt_raised : bool;          (* Engine.tick raised *)
                   tt_paused : bool; tt_status_error : bool;
                   tt_failed : bool;          (* the method state lists a failed line (or the failing code was injected) *)
                   tt_stopped : bool }.
-Record tcase := { tc_stop_at : option nat }. (* the tick before which the user presses Stop *)
+Record tcase := { tc_stop_at : option nat;   (* the tick before which the user presses Stop *)
+                  tc_resumes : bool }.       (* the text or an injected snippet holds an Unpause or a timed Pause: the method itself may
+                                                resume the run in the very tick the error pauses it *)
 Inductive input := IEng (i : EngRun.input) | IText (c : tcase).
 Inductive output := OEng (o : EngRun.output) | OText (l : list ttick).
 (* for a text the model only says: no tick raises (Engine.tick is total in the model) *)
@@ -64,7 +66,7 @@ Fixpoint walk (os : list op) (vs : EngRun.output) (deadline : option nat) : bool
 
 (* texts: no tick raises; when the engine enters the error state (and Stop has not been pressed) the run is paused with
    Method Status Error and the failing instruction is marked failed; after Stop the engine is Stopped within `patience` ticks *)
-Fixpoint twalk (k : nat) (prev_error : bool) (stop_at : option nat) (l : list ttick) : bool :=
+Fixpoint twalk (resumes : bool) (k : nat) (prev_error : bool) (stop_at : option nat) (l : list ttick) : bool :=
   match l with
   | [] => true
   | t :: l' =>
@@ -72,13 +74,13 @@ Fixpoint twalk (k : nat) (prev_error : bool) (stop_at : option nat) (l : list tt
       (* in the tick in which the error state is entered (later, a timed Pause that expires or an Unpause instruction may
          legitimately resume the run) *)
       && (let stop_pressed := match stop_at with Some s => Nat.leb s k | None => false end in
-          if tt_error t && negb prev_error && negb stop_pressed then tt_paused t && tt_status_error t && tt_failed t else true)
+          if tt_error t && negb prev_error && negb stop_pressed then (tt_paused t || resumes) && tt_status_error t && tt_failed t else true)
       && (match stop_at with Some s => if Nat.leb (s + patience) k then tt_stopped t else true | None => true end)
-      && twalk (Datatypes.S k) (tt_error t) stop_at l'
+      && twalk resumes (Datatypes.S k) (tt_error t) stop_at l'
   end.
 Definition holds_b (i : input) (o : output) : bool :=
   match i, o with
   | IEng x, OEng y => walk (snd x) y None
-  | IText c, OText l => twalk 0 false (tc_stop_at c) l
+  | IText c, OText l => twalk (tc_resumes c) 0 false (tc_stop_at c) l
   | _, _ => false
   end.
